@@ -182,7 +182,7 @@ fn fault_menu(site: &str) -> Vec<(&'static str, [u8; 32])> {
 }
 
 const MENU_MAX: usize = 7;
-const EDGE_MAX: usize = 4;
+const EDGE_MAX: usize = 7;
 
 fn layout(t: Tier) -> Layout {
     Layout {
